@@ -86,7 +86,7 @@ func (p *Path) ensureInit(pkg *ssa.Package) {
 			}
 		}
 	}
-	if p.eng.skipInit[pkg.Pkg.Path()] {
+	if p.eng.skipInit[pkg.Pkg.Path()] || (p.h != nil && p.h.NoInit[pkg.Pkg.Path()]) {
 		p.pkgInit[pkg] = 2
 		return
 	}
